@@ -1,6 +1,6 @@
 (* C18_proof.v -- the accept / reject decision of every constructor is exactly wf_op. *)
 From Coq Require Import ZArith List Bool Lia ZifyBool.
-From PS.model Require Import Smt Enc Prog.
+From PS.model Require Import Smt Enc Ind Prog.
 From PS.spec Require Import Spec.
 From PS.proofs Require Import Base Wf_proof.
 Import ListNotations.
@@ -12,6 +12,25 @@ Proof.
   destruct e; cbn [check_c]; unfold has_busy, is_nil, absent, nonneg, posz; try reflexivity.
   - destruct ivs; [reflexivity|]. cbn. reflexivity.
   - destruct lo, hi; reflexivity.
+Qed.
+
+Lemma check_i_wf all e : check_i all e = wf_ind_expr all e.
+Proof. destruct e; cbn [check_i wf_ind_expr]; try reflexivity; destruct (tasks_of all ts); reflexivity. Qed.
+
+Lemma add_indicator_none st id key given b re :
+  add_indicator st id key given b re = None <-> wf_indicator st id key re = false.
+Proof.
+  unfold add_indicator, wf_indicator, ind_asserts. cbn [i_id i_hz i_all i_expr]. rewrite check_i_wf.
+  destruct (key_taken st key); cbn [negb andb]; [split; auto|].
+  destruct (wf_ind_expr (ps_tasks st) re); cbn [negb andb]; [|split; auto].
+  destruct (nodup_forms _); cbn [negb]; split; congruence.
+Qed.
+Lemma add_indicator_objs st id key given b re st' :
+  add_indicator st id key given b re = Some st' -> x_objs (ps_ext st') = x_objs (ps_ext st).
+Proof.
+  unfold add_indicator. destruct (key_taken st key); [discriminate|].
+  destruct (negb (check_i _ _)); [discriminate|]. destruct (negb (nodup_forms _)); [discriminate|].
+  intros [= <-]. reflexivity.
 Qed.
 
 Ltac brk := repeat match goal with
@@ -53,9 +72,36 @@ Proof.
     + destruct (find_select st (SUser s)); [|congruence]. intros _.
       destruct (existsb _ _); cbn [negb]; split; intros H; congruence.
   - destruct (find_cons st id); cbn [absent andb]; [intros _; split; auto|].
-    destruct (resolve st e) as [re|]; [|congruence]. intros _.
+    destruct (resolve st e) as [re|]; [|congruence].
+    destruct (negb (buffer_known st re)); [congruence|]. intros _.
     rewrite <- check_c_wf. destruct (check_c re); cbn [negb andb]; [|split; auto].
     destruct (nodup_forms _); cbn [negb]; split; intros H; congruence.
+  - (* buffer *) intros _. unfold absent, absentb.
+    destruct init, final, (find_buf st id); cbn [andb negb]; split; congruence.
+  - (* indicator *) destruct (negb (user_indicator e)); [congruence|].
+    destruct (find_ind st id); cbn [absent andb]; [intros _; split; auto|].
+    destruct (resolve_i st e) as [re|]; [|congruence]. intros _.
+    destruct (add_indicator st id (Some (user_ind_name id)) (user_ind_name id) bounds re) eqn:Ha.
+    + split; [congruence|]. intros Hw.
+      apply (proj2 (add_indicator_none st id _ (user_ind_name id) bounds re)) in Hw. congruence.
+    + split; [intros _|auto]. now apply add_indicator_none in Ha.
+  - (* objective *) unfold wf_objective, objective_name_taken.
+    match goal with |- context [objective_name st ?x] =>
+      destruct (objective_name st x) as [name|]; [|congruence]; destruct x end; cbn [objective_indicator];
+      try (intros _; destruct (existsb _ _); cbn [negb andb]; split; congruence);
+      try (destruct (find_ind st i); [|congruence]; intros _;
+           destruct (existsb _ _); cbn [negb andb]; split; congruence);
+      (destruct (find_ind st ind); [congruence|];
+       match goal with |- context [resolve_i st ?ie] => destruct (resolve_i st ie) end; [|congruence];
+       intros _;
+       match goal with |- context [add_indicator st ind ?k ?g None ?r] =>
+         destruct (add_indicator st ind k g None r) eqn:Ha;
+         [ rewrite (add_indicator_objs _ _ _ _ _ _ _ Ha);
+           assert (Hw : wf_indicator st ind k r <> false)
+             by (intros Hw; apply (proj2 (add_indicator_none st ind k g None r)) in Hw; congruence);
+           destruct (wf_indicator st ind k r); [|congruence];
+           destruct (existsb _ _); cbn [negb andb]; split; congruence
+         | apply add_indicator_none in Ha; rewrite Ha; rewrite andb_false_r; split; auto ] end).
 Qed.
 
 (* before any problem exists every constructor except SchedulingProblem raises *)
@@ -113,10 +159,11 @@ Lemma rule_cumulative_size st id size prod cost :
   size < 2 -> step_problem st (ONewCumulative id size prod cost) = Err.
 Proof. intros H. cbn [step_problem]. destruct cost; try reflexivity. replace (2 <=? size) with false by lia. reflexivity. Qed.
 Lemma rule_constraint_illformed st id opt e re :
-  find_cons st id = None -> resolve st e = Some re -> wf_constraint id opt re = false ->
+  find_cons st id = None -> resolve st e = Some re -> buffer_known st re = true ->
+  wf_constraint id opt re = false ->
   step_problem st (ONewConstraint id opt e) = Err.
 Proof.
-  intros Hf Hr Hw. cbn [step_problem]. rewrite Hf, Hr. rewrite <- check_c_wf in Hw.
+  intros Hf Hr Hb Hw. cbn [step_problem]. rewrite Hf, Hr, Hb. cbn [negb]. rewrite <- check_c_wf in Hw.
   destruct (check_c re); cbn [negb andb] in *; [|reflexivity]. rewrite Hw. reflexivity.
 Qed.
 (* instances: an optional-task rule on a mandatory task, force-apply over a mandatory constraint,
